@@ -82,6 +82,19 @@ def check_classifier():
             lvl = classify(cls(code, 'msg'))
             if bool(lvl) != ((cls, code) in TRANSIENT):
                 return {'confirmed': True, 'what': 'classification differs from the property: %s(%d) -> %r' % (cls.__name__, code, lvl), 'exception': '%s(%d, ...)' % (cls.__name__, code), 'result': lvl, 'expected_retryable': (cls, code) in TRANSIENT}
+    # an error that merely carries a transient driver error as its cause / context (raise X from exc, or raised while handling it)
+    # is a different error: "not retried after any other error"
+    for cls, code in sorted(TRANSIENT, key=lambda x: x[1]):
+        for outer in (ValueError('gave up'), IntegrityError(1062, 'dup'), RuntimeError()):
+            for how in ('cause', 'context'):
+                inner = cls(code, 'msg')
+                if how == 'cause':
+                    outer.__cause__ = inner
+                else:
+                    outer.__context__ = inner
+                lvl = classify(outer)
+                if lvl:
+                    return {'confirmed': True, 'what': 'an error other than the listed ones is classified retryable because its __%s__ is %s(%d): %r -> %r' % (how, cls.__name__, code, outer, lvl), 'exception': repr(outer), 'chained': '%s(%d)' % (cls.__name__, code)}
     return None
 
 
